@@ -16,6 +16,7 @@ import (
 	"strconv"
 	"strings"
 
+	"github.com/tobgu/qframe"
 	"github.com/tobgu/qframe/verifhook/ryuhook"
 	"verifharness/hlib"
 )
@@ -322,34 +323,52 @@ func families(r *hlib.Rng) []family {
 		if q > 22 {
 			q = 22
 		}
-		p5 := new(big.Int).Exp(big.NewInt(5), big.NewInt(int64(q)), nil)
-		if p5.BitLen() > 52 {
-			continue
-		}
-		p5u := p5.Uint64()
-		for _, c := range []int64{0, 2, -1, -2} {
-			// m2 = (j*5^q - c)/4 in [2^52, 2^53) for a random j with the right residue mod 4
-			for tries := 0; tries < 40; tries++ {
-				j := (uint64(1)<<54)/p5u + r.U64()%((uint64(1)<<54)/p5u)
-				v := new(big.Int).Mul(new(big.Int).SetUint64(j), p5)
-				v.Sub(v, big.NewInt(c))
-				if new(big.Int).Mod(v, big.NewInt(4)).Sign() != 0 {
-					continue
+		for _, dq := range []int{0, 1} {
+			// dq = 1: multiples of 5^(q-1) that are NOT multiples of 5^q (the neighbouring power must be told apart)
+			if q-dq < 1 {
+				continue
+			}
+			p5 := new(big.Int).Exp(big.NewInt(5), big.NewInt(int64(q-dq)), nil)
+			if p5.BitLen() > 52 {
+				continue
+			}
+			p5u := p5.Uint64()
+			for _, c := range []int64{0, 2, -1, -2} {
+				// m2 = (j*5^q - c)/4 in [2^52, 2^53) for a random j with the right residue mod 4
+				for tries := 0; tries < 40; tries++ {
+					j := (uint64(1)<<54)/p5u + r.U64()%((uint64(1)<<54)/p5u)
+					if dq == 1 && j%5 == 0 {
+						continue
+					}
+					v := new(big.Int).Mul(new(big.Int).SetUint64(j), p5)
+					v.Sub(v, big.NewInt(c))
+					if new(big.Int).Mod(v, big.NewInt(4)).Sign() != 0 {
+						continue
+					}
+					m2 := new(big.Int).Div(v, big.NewInt(4))
+					if m2.BitLen() != 53 {
+						continue
+					}
+					exp := uint64(e2 + 2 + 1075)
+					if exp >= 2047 {
+						continue
+					}
+					m5 = append(m5, mk(exp, m2.Uint64()))
+					break
 				}
-				m2 := new(big.Int).Div(v, big.NewInt(4))
-				if m2.BitLen() != 53 {
-					continue
-				}
-				exp := uint64(e2 + 2 + 1075)
-				if exp >= 2047 {
-					continue
-				}
-				m5 = append(m5, mk(exp, m2.Uint64()))
-				break
 			}
 		}
 	}
 	fams = append(fams, family{"mult-pow5", m5, 5})
+
+	// large magnitudes (2^53 .. 2^135: the branch e2 >= 0 with its power-of-five tests) with random mantissas
+	var big5 []uint64
+	for e2 := 0; e2 <= 80; e2++ {
+		for k := 0; k < 400; k++ {
+			big5 = append(big5, mk(uint64(e2+2+1075), r.U64()))
+		}
+	}
+	fams = append(fams, family{"large-random", big5, 4})
 
 	return fams
 }
@@ -517,6 +536,50 @@ func main() {
 			nilBuf(b, fm.name)
 			nilBuf(b|1<<63, fm.name)
 		}
+	}
+
+	// ---- the same floats through the public path: a float column written by ToJSON must show, cell by cell,
+	// exactly the text strconv.FormatFloat(f, 'f', -1, 64) (null for NaN)
+	{
+		var fl []float64
+		for _, fm := range fams {
+			items := fm.items
+			if len(items) > 600 {
+				items = sample(r.Fork(), items, 600)
+			}
+			for _, b := range items {
+				for _, bb := range []uint64{b, b | 1<<63} {
+					if isFiniteBits(bb) {
+						fl = append(fl, math.Float64frombits(bb))
+					}
+				}
+			}
+		}
+		fl = append(fl, 0, math.Copysign(0, -1), math.NaN(), 1, -1, 0.5, 1e21, 123456789, 4294967296, 9999999999, 5551234567)
+		var buf bytes.Buffer
+		qf := qframe.New(map[string]interface{}{"F": fl})
+		if err := qf.ToJSON(&buf); err != nil {
+			fail(-1, "ToJSON of a float column failed: "+err.Error(), map[string]interface{}{"kind": "to_json-path", "floats": len(fl)})
+		} else {
+			recs := bytes.Split(bytes.TrimSuffix(bytes.TrimPrefix(buf.Bytes(), []byte("[")), []byte("]")), []byte("},{"))
+			if len(recs) != len(fl) {
+				fail(-1, fmt.Sprintf("ToJSON wrote %d records for %d rows", len(recs), len(fl)), map[string]interface{}{"kind": "to_json-path"})
+			} else {
+				for i, rec := range recs {
+					txt := string(bytes.TrimSuffix(bytes.TrimPrefix(bytes.TrimPrefix(rec, []byte("{")), []byte(`"F":`)), []byte("}")))
+					want := "null"
+					if !math.IsNaN(fl[i]) {
+						want = strconv.FormatFloat(fl[i], 'f', -1, 64)
+					}
+					if txt != want {
+						fail(-1, fmt.Sprintf("ToJSON writes the float %#016x as %s, strconv.FormatFloat gives %s", math.Float64bits(fl[i]), clip(txt), clip(want)),
+							map[string]interface{}{"kind": "to_json-path", "bits": fmt.Sprintf("%#016x", math.Float64bits(fl[i]))})
+						break
+					}
+				}
+			}
+		}
+		s.Count("to_json-path-floats")
 	}
 
 	// ---- cases for Coq
